@@ -3,7 +3,7 @@
 From Coq Require Import List NArith Bool.
 From SNT Require Import Base.Outcome Automata.Regex Automata.NFA Automata.Build Automata.Compile
   Automata.BuildLeaves Automata.BuildProofs Automata.CompileSpec Automata.CompileProofs Automata.BuildKeys
-  Automata.C15Main Automata.RegexProofs.
+  Automata.C15Main Automata.RegexProofs Automata.CompileTotal.
 Import ListNotations.
 Local Open Scope N_scope.
 
@@ -58,6 +58,18 @@ Theorem C15_main : forall (e : regex) (fuel cf : nat) (d : dfa),
   forall s, bytes s ->
     exists b, dfa_matches d s = Ok b /\ (b = true <-> matches e s).
 Proof. exact main_matches. Qed.
+
+(* compile terminates without panic on every well-formed NFA (the model carries
+   fuel; some fuel always suffices), so the statement above is not vacuous:
+   for every expression there is a compiled DFA and it decides the expression *)
+Theorem C15_compile_total : forall n : nfa, wf n -> keys_ok n ->
+  exists fuel cf d, compile fuel cf n = Ok d.
+Proof. exact compile_total. Qed.
+
+Theorem C15_main_unconditional : forall e : regex,
+  exists fuel cf d, compile fuel cf (build e) = Ok d /\
+    forall s, bytes s -> exists b, dfa_matches d s = Ok b /\ (b = true <-> matches e s).
+Proof. exact main_unconditional. Qed.
 
 (* terminal only if no byte can extend the match; a dead transition only if no
    extension can match *)
